@@ -152,6 +152,14 @@ def run(r, all_functions=False):
         for dec in getattr(fn.node, "decorator_list", []):
             txt = ast.unparse(dec)
             if any(k in txt for k in ("cache", "memo")):
+                # functools.lru_cache / cache key on every argument: on a function of its arguments alone (no self, no writes to its arguments,
+                # no module-level store) the cache cannot change a result
+                params_ = [p_[0] for p_ in r.A.summary(q).params]
+                pure_ = ("lru_cache" in txt or txt.endswith("cache") or "functools.cache" in txt) and "self" not in params_ and "cls" not in params_ \
+                    and not E.mut[q] and not any(root_[0] == "glob" for root_, _, _ in E.direct[q])
+                if pure_:
+                    rep.ob("C20-GLB", q, True, "a result cache keyed on all arguments of a function of its arguments alone", where_of(r.P, fn, fn.node), key="cache decorator")
+                    continue
                 rep.ob("C20-GLB", q, False, "no result cache survives between calls", where_of(r.P, fn, fn.node), expected="no caching decorator", found="@" + txt, key="cache decorator")
     # ---- randomness
     rng = E.rng_calls()
